@@ -409,6 +409,8 @@ func checkC04(c *Ctx) {
 	}
 
 	// ---- C04.status-final ---------------------------------------------------
+	// the status record of a transfer is keyed by its tx hash: no other transfer is filed under that hash
+	c.includeKeys("status-final", "C19", rulesIn("C19.record"), func(rule, key string) bool { return strings.HasPrefix(key, "payout-hash:") })
 	r.Min("C04.status-final", 1)
 	c.checkStatusFinal(reach)
 
